@@ -82,6 +82,8 @@ type interpreter struct {
 	memo          map[*Term]uint64
 	impliedCache  map[*Term]int
 	symbolicRand  bool
+	inInit        int
+	stubs         map[string]value
 	pcHard        int
 	scopeHard     []int
 	randCtr       int
@@ -252,7 +254,9 @@ func (i *interpreter) initPkg(p *ssa.Package) {
 	if init := p.Func("init"); init != nil {
 		saved := i.permuteRanges
 		i.permuteRanges = false
+		i.inInit++
 		callSSA(i, nil, token.NoPos, init, nil, nil)
+		i.inInit--
 		i.permuteRanges = saved
 	}
 }
@@ -663,6 +667,12 @@ func callSSA(i *interpreter, caller *frame, callpos token.Pos, fn *ssa.Function,
 		}
 	} else if fn.Pkg != nil && !i.inited[fn.Pkg] {
 		i.initPkg(fn.Pkg)
+	}
+	if i.stubs != nil {
+		if impl, ok := i.stubs[fn.String()]; ok {
+			i.stubsHit["harness stub: "+fn.String()]++
+			return call(i, caller, callpos, impl, args)
+		}
 	}
 	if ext := i.P.external(fn); ext != nil {
 		i.stubsHit[fn.String()]++
